@@ -93,10 +93,13 @@ func c06E2EJob(tier string) *SeqJob {
 			}
 			steps++
 		}
-		s.Counter("m-1").Inc(1)
-		s.Gauge("g 2").Update(1)
-		s.Timer("t:3").Record(1)
-		s.Histogram("h€", tally.ValueBuckets{1}).RecordValue(1)
+		// (a handler that looks its metrics up by their raw spelling on every request, not once at start-up)
+		for i := 0; i < 3; i++ {
+			s.Counter("m-1").Inc(1)
+			s.Gauge("g 2").Update(1)
+			s.Timer("t:3").Record(1)
+			s.Histogram("h€", tally.ValueBuckets{1}).RecordValue(1)
+		}
 		if len(seq) > 0 && s != prev {
 			// the scope is closed and the same derivation is made again from its parent before any report pass: the
 			// scope handed out now is a new one, and what it delivers is sanitized like everything else
